@@ -48,6 +48,7 @@ inductive Who where
   deriving Repr, DecidableEq
 
 inductive Phase where
+  | addWait       -- registered, blocked on inFlightM before counting the request in flight
   | lockWait      -- blocked on the write mutex
   | write         -- inside conn.Write (one unit of the frame), holding the write mutex
   | armWait       -- blocked on inFlightM before arming the read deadline
@@ -66,6 +67,8 @@ structure Snd where
 inductive Frame where
   | result              -- header ok, response decodes
   | exception (r : Res) -- header carries an exception of that class
+  | perCall (rs : List (Nat × Res))  -- a multi-response: one result class per call; calls it does
+                        -- not mention get RetryableError ("no result for action")
   | undecodable         -- response part / cellblocks do not decode (→ RetryableError to the call)
   | badHeader           -- header does not decode or has no call id (→ connection failure)
   deriving Repr, DecidableEq
@@ -132,13 +135,6 @@ inductive Act where
 
 def uint32 : Nat := 4294967296
 
-/-- Put one result per call of the item on the result channels. -/
-def deliverItem (s : St) (it : Item) (r : Res) (src : Option Nat) : St :=
-  { s with delivered := s.delivered ++ it.calls.map (fun c => Dlv.mk c r src) }
-
-def deliverAll (s : St) (its : List Item) (r : Res) : St :=
-  its.foldl (fun s it => deliverItem s it r none) s
-
 /-- inFlightM is held by a sender inside its arming SetReadDeadline or by the reader inside its
 clearing SetReadDeadline. -/
 def mHeld (s : St) : Bool :=
@@ -146,6 +142,13 @@ def mHeld (s : St) : Bool :=
     (match s.reader with | .clearing _ _ _ => true | _ => false)
 
 def readerNext (s : St) : Reader := if s.done then .exited else .reading
+
+/-- Put one result per call of the item on the result channels. -/
+def deliverItem (s : St) (it : Item) (r : Res) (src : Option Nat) : St :=
+  { s with delivered := s.delivered ++ it.calls.map (fun c => Dlv.mk c r src) }
+
+def deliverAll (s : St) (its : List Item) (r : Res) : St :=
+  its.foldl (fun s it => deliverItem s it r none) s
 
 /-- `c.fail(err)`: the first caller closes `done`, closes the connection (a blocked Read returns)
 and fails every registered item; QueueBatch callers blocked on the queue see `done`. Later callers
@@ -177,16 +180,24 @@ def sendFailed (s : St) (snd : Snd) : St :=
   | some it => deliverItem (eraseSent s1 snd.id) it .connErr none
   | none => s1
 
-/-- Start `send` for an item: allocate the id, register, count it in flight, take the write mutex
-or wait for it. -/
+/-- `inFlightAdd` done (the sender held inFlightM for an instant): take the write mutex or wait
+for it. -/
+def senderAdd (s : St) (w : Who) : St :=
+  let free := s.writeM.isNone
+  { s with inFlight := (s.inFlight + 1) % uint32,
+           writeM := if free then some w else s.writeM,
+           sends := s.sends.map (fun y =>
+             if y.who == w then { y with phase := if free then Phase.write else Phase.lockWait } else y) }
+
+/-- Start `send` for an item: allocate the id and register; then count it in flight (needs
+inFlightM, which a goroutine parked inside SetReadDeadline holds) and go for the write mutex. -/
 def startSend (s : St) (w : Who) (it : Item) : St :=
   let id := s.nextId + 1
-  let free := s.writeM.isNone
-  { s with nextId := id, sent := s.sent ++ [(id, it)], inFlight := (s.inFlight + 1) % uint32,
-           wroteAs := s.wroteAs ++ it.calls.map (fun c => (c, id)),
-           writeM := if free then some w else s.writeM,
-           sends := s.sends ++ [{ who := w, id := id, item := it,
-                                  phase := if free then .write else .lockWait }] }
+  let s1 : St :=
+    { s with nextId := id, sent := s.sent ++ [(id, it)],
+             wroteAs := s.wroteAs ++ it.calls.map (fun c => (c, id)),
+             sends := s.sends ++ [{ who := w, id := id, item := it, phase := .addWait }] }
+  if mHeld s1 then { s1 with mWait := s1.mWait ++ [.sender w] } else senderAdd s1 w
 
 /-- The batching goroutine's loop once it is not inside trySend: exit when `done`; otherwise take
 queued calls (up to queueSize), drop those whose context has ended (toProto) and send the multi. -/
@@ -230,6 +241,10 @@ def finishFrame (s : St) (id : Nat) (it : Item) (f : Frame) : St :=
   match f with
   | .result => let s1 := deliverItem s it .ok (some id); { s1 with reader := readerNext s1 }
   | .undecodable => let s1 := deliverItem s it .retryable (some id); { s1 with reader := readerNext s1 }
+  | .perCall rs =>
+    let s1 : St := { s with delivered := s.delivered ++ it.calls.map (fun c =>
+      Dlv.mk c (((rs.find? (·.1 == c)).map (·.2)).getD .retryable) (some id)) }
+    { s1 with reader := readerNext s1 }
   | .exception .connErr =>
     -- the caller gets the ServerError and the connection is failed
     let s1 := deliverItem s it .connErr (some id)
@@ -256,7 +271,14 @@ def wakeM : Nat → St → St
     if mHeld s then s else
     match s.mWait with
     | [] => s
-    | .sender w :: rest => wakeM fuel (senderAtM { s with mWait := rest } w)
+    | .sender w :: rest =>
+      let s1 := { s with mWait := rest }
+      match s1.sends.find? (fun x => x.who == w) with
+      | some x =>
+        if x.phase == .addWait then wakeM fuel (senderAdd s1 w)
+        else if x.phase == .armWait then wakeM fuel (senderAtM s1 w)
+        else wakeM fuel s1
+      | none => wakeM fuel s1
     | .reader :: rest =>
       match s.reader with
       | .downWait id it f => wakeM fuel (readerAtM { s with mWait := rest } id it f)
@@ -277,8 +299,11 @@ def step (s : St) : Act → Option St
   | .queueDirect c =>
     if s.handed.contains c then none else
     let s := { s with handed := s.handed ++ [c] }
-    if s.done then some { s with delivered := s.delivered ++ [Dlv.mk c .connErr none] }
-    else if s.ctxDone.contains c then some { s with dropped := s.dropped ++ [c] }
+    if s.ctxDone.contains c then
+      -- environment restriction: with the connection done as well, the `select` in QueueRPC
+      -- would choose at random between refusing and dropping
+      if s.done then none else some { s with dropped := s.dropped ++ [c] }
+    else if s.done then some { s with delivered := s.delivered ++ [Dlv.mk c .connErr none] }
     else some (startSend s (.direct c) (.single c))
   | .cancel c =>
     if s.ctxDone.contains c then none else
